@@ -73,7 +73,7 @@ func validExportedGo(s string) bool {
 
 func init() {
 	register("C14", func(c *engine.Ctx) {
-		c.Rule = "function level: Identifierize (real, through the verif export shim) vs the model on every sequence of rune classes {lower with upper image, lower without, upper, caseless letter, decimal digit, other numeral, delimiter} up to length 5 (6 in thorough) realised with representative runes, with and without capitalizations chosen to equal a part, plus random Unicode strings; judged: inside the hypotheses (no other-numeral, no leading lower-case letter without upper-case image) the result is a valid exported Go identifier. Table hypotheses are checked for all 1,114,112 code points. Program level: sibling names that collide after normalisation (2..6 per set) and type-name collisions (up to 4) must give distinct field / type names, tags with the exact names, and a decode that binds every key to its own field. Distinct = distinct (class sequence, capitalization kind) / collision sets."
+		c.Rule = "function level: Identifierize (real, through the verif export shim) vs the model on every sequence of rune classes {lower with upper image, lower without, upper, caseless letter, decimal digit, other numeral, delimiter} up to length 5 (6 in thorough) realised with representative runes, with and without capitalizations chosen to equal a part, plus random Unicode strings; judged: inside the hypotheses (no other-numeral, no leading lower-case letter without upper-case image) the result is a valid exported Go identifier. Table hypotheses are checked for all 1,114,112 code points. Program level: sibling names that collide after normalisation (2..6 per set) and type-name collisions (up to 4) must give distinct field / type names, tags with the exact names, and a decode that binds every key to its own field; key fidelity: every punctuation character encoding/json admits in a tag name (28) inside / before / after letters, and names that look like format verbs, template actions or escapes (%s, 100%, %%, {{.}}, $1), required and optional, must round-trip. Distinct = distinct (class sequence, capitalization kind) / collision sets."
 		c.Proofs([]string{"GJS.Props.C14"}, []string{
 			"GJS.Props.C14.splitIdent_spec", "GJS.Props.C14.never_empty", "GJS.Props.C14.leading_repair", "GJS.Props.C14.leading_kept",
 			"GJS.Props.C14.capitalize_plain", "GJS.Props.C14.tag_is_raw_name", "GJS.Props.C14.probeName_fresh", "GJS.Props.C14.KF_no_upper_image",
@@ -263,8 +263,36 @@ func init() {
 			}
 			pcs = append(pcs, baseCase("c14-type-collisions", M{"type": "object", "properties": props}, []any{doc}, fmt.Sprintf("n=%d", n)))
 		}
+		// key fidelity: every character encoding/json admits in a tag name, inside / before / after letters, and
+		// names that look like format verbs, template actions or escapes: the tag must carry the exact key
+		const tagPunct = "!#$%&()*+-./:;<=>?@[]^_{|}~ "
+		var fidelity [][]string
+		for _, ch := range tagPunct {
+			fidelity = append(fidelity, []string{"a" + string(ch) + "b", string(ch) + "x", "y" + string(ch)})
+		}
+		fidelity = append(fidelity, []string{"%s", "%d", "100%", "a%sb"}, []string{"%%", "%v%v", "%!", "%[1]s"}, []string{"{{.}}", "$1", "${x}", "#{y}"},
+			[]string{"rate%", "discount%", "amount"}, []string{"a%", "a%%", "a%%%"})
+		for _, set := range fidelity {
+			props := M{}
+			doc := M{}
+			for i, name := range set {
+				props[name] = M{"type": "integer"}
+				doc[name] = 200 + i
+			}
+			for _, req := range []bool{true, false} {
+				schema := M{"type": "object", "properties": props}
+				if req {
+					schema["required"] = toAnyS(set)
+				}
+				pcs = append(pcs, baseCase("c14-key-fidelity", schema, []any{doc}, strings.Join(set, " "), fmt.Sprint(req)))
+			}
+		}
 		res := runCases(c, pcs)
 		for _, r := range res {
+			if r.Unsupported {
+				c.Count("c14", "outside-model-scope (unsupported property name)")
+				continue
+			}
 			if r.RunsJ == nil {
 				fails++
 				if fails <= 3 {
